@@ -34,7 +34,7 @@ CONSTANTS Lists,         \* subset of AllLists containing "ridx"
           KeepHist
 
 AllLists == {"ridx", "rl1", "rl2", "sidx", "ss", "hp"}
-AllFaults == {"ok", "refused", "timeout", "status", "empty", "oversize", "trunc", "inv", "invown"}
+AllFaults == {"ok", "refused", "timeout", "status", "empty", "oversize", "trunc", "cancel", "inv", "invown"}
 AllDefects == {"swap_first",      \* received text installed before the transfer is validated
                "empty_ok",        \* an empty body is accepted as the new content
                "len_ignored",     \* a short transfer is accepted as the new content
@@ -55,7 +55,9 @@ Victim == IF "rl2" \in Lists THEN "rl2" ELSE "rl1"
 FaultsOf(l) == IF l = "ridx" THEN (IF RLs = {} THEN Faults \ {"invown"} ELSE Faults)
                ELSE IF l = "sidx" THEN Faults \ {"invown"}
                ELSE Faults \ {"inv", "invown"}
-Failing(f) == f \in {"refused", "timeout", "status", "empty", "oversize", "trunc"}
+\* "cancel": the context of the whole refresh is cancelled (deadline of the
+\* refresh worker, shutdown) while this list is being downloaded
+Failing(f) == f \in {"refused", "timeout", "status", "empty", "oversize", "trunc", "cancel"}
 
 VARIABLES served, disk, remote,
           fault,        \* fault of every list in the current round
@@ -120,17 +122,17 @@ AbortPc == IF "hp" \in Lists /\ Cur # "hp" THEN [i |-> HpPos, s |-> "fetch"] ELS
 
 \* outcome of the transfer
 Got(f) == CASE f \in {"ok", "inv", "invown"} -> "full"
-            [] f \in {"refused", "timeout", "status"} -> "err"
+            [] f \in {"refused", "timeout", "status", "cancel"} -> "err"
             [] f = "empty" -> IF D("empty_ok") THEN "fullempty" ELSE "empty"
             [] f = "trunc" -> IF D("len_ignored") THEN "fullpart" ELSE "part"
             [] f = "oversize" -> "part"
 Val(l) == CASE got = "full" -> remote[l] [] got = "fullempty" -> 0 [] got = "fullpart" -> -1 [] OTHER -> -1
 
 \* what happens to the round when list l cannot be updated
-OnError(l) ==
+OnError(l, f) ==
     IF l \in RLs
     THEN /\ pending' = [pending EXCEPT ![l] = IF D("rl_dropped") THEN 0 ELSE served[l]]   \* setPrevRuleList
-         /\ pc' = IF D("abort_all") THEN AbortPc ELSE NextPc
+         /\ pc' = IF D("abort_all") \/ f = "cancel" THEN AbortPc ELSE NextPc
     ELSE /\ pending' = pending
          /\ pc' = AbortPc
 
@@ -151,7 +153,7 @@ Fetch(l, f) ==
           ELSE /\ served' = served
                /\ IF g \in {"full", "fullempty", "fullpart"}
                   THEN pc' = [pc EXCEPT !.s = "write"] /\ pending' = pending
-                  ELSE OnError(l)
+                  ELSE OnError(l, f)
     /\ hist' = H([a |-> "Fetch", l |-> l, f |-> f, up |-> TRUE])
     /\ UNCHANGED <<remote, prev, dprev, alive, phase, rounds>>
 
@@ -165,7 +167,7 @@ Write(l) ==
 Compile(l) ==
     /\ alive /\ pc.i > 0 /\ Cur = l /\ pc.s = "compile"
     /\ IF l = "sidx" /\ fault[l] = "inv" /\ D("svc_strict")
-       THEN OnError(l)
+       THEN OnError(l, fault[l])
        ELSE pc' = [pc EXCEPT !.s = "swap"] /\ pending' = pending
     /\ hist' = hist
     /\ UNCHANGED <<served, disk, remote, fault, prev, dprev, got, alive, phase, rounds, ownBad, svcBad>>
@@ -252,6 +254,7 @@ OthersPreviousOrNew ==
 \* valid entries of a partially invalid index are used
 ValidIndexEntriesApplied ==
     RoundDone /\ fault["ridx"] \in {"ok", "inv", "invown"}
+        /\ (\A l \in RLs : fault[l] # "cancel")
         /\ ("sidx" \in Lists => fault["sidx"] \in {"ok", "inv"})
         /\ ("ss" \in Lists => fault["ss"] = "ok")
     => /\ served["ridx"] = remote["ridx"]
